@@ -430,7 +430,7 @@ let check_tokens (cfg : econfig) (ops : eop list) (tr : tok list) : unit =
        | _ -> ());
     (* C11: every store / stream / timeout-store call of a background process is made under the context its role scheduler
        handed out (the harness marks a call that carried any other context with API=-2) *)
-    (if on "C11" || on "C12" then
+    (if on "C11" || on "C12" || on "C20" then
        match unit_of_op with
        | Some _ when List.exists (function TApi z -> zi z = -2 | _ -> false) seg ->
          bad (if on "C11" then "C11" else prop) "a background process made an adapter call that was not under the context handed out by its role scheduler"
@@ -501,6 +501,10 @@ let check_tokens (cfg : econfig) (ops : eop list) (tr : tok list) : unit =
          | TAck (_, a) when !failed_delete && eff a -> bad "C15" "deletion request acknowledged although the delete function returned an error"
          | _ -> ()) seg
      end);
+    (* every property of the engine: a process that stops making adapter calls without terminating is blocked outside the
+       simulation — it waits on something that is not under the context its role scheduler handed out (API=-6) *)
+    (if List.exists (function TApi z -> zi z = -6 | _ -> false) seg then
+       bad prop "a background process went silent without terminating: it is blocked on something that is not under the context handed out by its role scheduler (a lost role would not stop it)");
     (* C11: a background process never terminates while the workflow is running *)
     (if on "C11" || on "C07" || on "C01" then
        match unit_of_op with
